@@ -6,12 +6,17 @@
 //	c13obs stdin-resolve <base>                 same as resolve for paths read from stdin (hex, one per line)
 //	c13obs stdin-mounts <cwd> <k1,k2,...>       same as mounts for paths read from stdin (hex)
 //	c13obs localfs <maxseg>                     every localfs method over a temp tree with sentinels
+//	c13obs lfshist                              histories of localfs operations (stdin, one per line: ops separated by ';',
+//	                                            op = Name:hex(arg1)[:hex(arg2)]) on a fresh sentinel tree each; after EVERY
+//	                                            operation: where does every symbolic link inside the base physically lead,
+//	                                            is everything outside the base unchanged, did a read reveal outside content
 package main
 
 import (
 	"bufio"
 	"context"
 	"encoding/hex"
+	"encoding/json"
 	"errors"
 	"fmt"
 	"io/fs"
@@ -57,21 +62,33 @@ type recFS struct {
 }
 
 func (r *recFS) rec(m, p string) { *r.log = append(*r.log, r.name+"\t"+m+"\t"+p) }
-func (r *recFS) Create(name string) (ros.File, error) { r.rec("Create", name); return nil, fs.ErrNotExist }
-func (r *recFS) Mkdir(name string, perm ros.FileMode) error { r.rec("Mkdir", name); return fs.ErrNotExist }
+func (r *recFS) Create(name string) (ros.File, error) {
+	r.rec("Create", name)
+	return nil, fs.ErrNotExist
+}
+func (r *recFS) Mkdir(name string, perm ros.FileMode) error {
+	r.rec("Mkdir", name)
+	return fs.ErrNotExist
+}
 func (r *recFS) MkdirAll(path string, perm ros.FileMode) error {
 	r.rec("MkdirAll", path)
 	return fs.ErrNotExist
 }
 func (r *recFS) Open(name string) (ros.File, error) { r.rec("Open", name); return nil, fs.ErrNotExist }
-func (r *recFS) ReadFile(name string) ([]byte, error) { r.rec("ReadFile", name); return nil, fs.ErrNotExist }
-func (r *recFS) Remove(name string) error               { r.rec("Remove", name); return fs.ErrNotExist }
-func (r *recFS) RemoveAll(path string) error            { r.rec("RemoveAll", path); return fs.ErrNotExist }
+func (r *recFS) ReadFile(name string) ([]byte, error) {
+	r.rec("ReadFile", name)
+	return nil, fs.ErrNotExist
+}
+func (r *recFS) Remove(name string) error    { r.rec("Remove", name); return fs.ErrNotExist }
+func (r *recFS) RemoveAll(path string) error { r.rec("RemoveAll", path); return fs.ErrNotExist }
 func (r *recFS) Rename(oldpath, newpath string) error {
 	r.rec("Rename", oldpath+"\x00"+newpath)
 	return fs.ErrNotExist
 }
-func (r *recFS) Stat(name string) (ros.FileInfo, error) { r.rec("Stat", name); return nil, fs.ErrNotExist }
+func (r *recFS) Stat(name string) (ros.FileInfo, error) {
+	r.rec("Stat", name)
+	return nil, fs.ErrNotExist
+}
 func (r *recFS) Symlink(oldname, newname string) error {
 	r.rec("Symlink", oldname+"\x00"+newname)
 	return fs.ErrNotExist
@@ -80,7 +97,10 @@ func (r *recFS) WriteFile(name string, data []byte, perm ros.FileMode) error {
 	r.rec("WriteFile", name)
 	return fs.ErrNotExist
 }
-func (r *recFS) ReadDir(name string) ([]ros.DirEntry, error) { r.rec("ReadDir", name); return nil, fs.ErrNotExist }
+func (r *recFS) ReadDir(name string) ([]ros.DirEntry, error) {
+	r.rec("ReadDir", name)
+	return nil, fs.ErrNotExist
+}
 func (r *recFS) WalkDir(root string, fn ros.WalkDirFunc) error {
 	r.rec("WalkDir", root)
 	return fs.ErrNotExist
@@ -173,7 +193,10 @@ func snapshot(root string, skip string) map[string]string {
 			return nil
 		}
 		if path == skip {
-			return filepath.SkipDir
+			if d != nil && d.IsDir() {
+				return filepath.SkipDir
+			}
+			return nil // the base was replaced by a file: skipping "the directory" would skip its siblings
 		}
 		info, e := os.Lstat(path)
 		if e != nil {
@@ -274,11 +297,23 @@ func localfsRun(maxSeg int) int {
 		two  bool
 	}
 	ops := []op{
-		{"Create", func(p, _ string) error { f, e := lfs.Create(p); if f != nil { f.Close() }; return e }, false},
+		{"Create", func(p, _ string) error {
+			f, e := lfs.Create(p)
+			if f != nil {
+				f.Close()
+			}
+			return e
+		}, false},
 		{"Mkdir", func(p, _ string) error { return lfs.Mkdir(p, 0o755) }, false},
 		{"MkdirAll", func(p, _ string) error { return lfs.MkdirAll(p, 0o755) }, false},
 		{"MkdirTemp", func(p, _ string) error { _, e := lfs.MkdirTemp(p, "t"); return e }, false},
-		{"Open", func(p, _ string) error { f, e := lfs.Open(p); if f != nil { f.Close() }; return e }, false},
+		{"Open", func(p, _ string) error {
+			f, e := lfs.Open(p)
+			if f != nil {
+				f.Close()
+			}
+			return e
+		}, false},
 		{"OpenFile", func(p, _ string) error {
 			f, e := lfs.OpenFile(p, os.O_RDWR|os.O_CREATE, 0o644)
 			if f != nil {
@@ -368,6 +403,290 @@ func localfsRun(maxSeg int) int {
 		}
 	}
 	fmt.Printf("SUMMARY\tevals=%d\trejected=%d\tviolations=%d\tpaths=%d\tops=%d\n", evals, rejected, violations+readLeak, len(paths), len(ops))
+	return 0
+}
+
+// ---------------------------------------------------------------- localfs histories (symbolic links, renames, chains)
+
+// physical resolves an absolute path the way the kernel does: component by component, following symbolic links
+// (a relative link text is taken against the directory that holds the link), ".." taken physically.  Components
+// that do not exist are appended as they are.  ok=false: more than 40 links (a loop).
+func physical(p string) (string, bool) {
+	var todo []string
+	push := func(t string) {
+		var cs []string
+		for _, c := range strings.Split(t, "/") {
+			if c != "" && c != "." {
+				cs = append(cs, c)
+			}
+		}
+		todo = append(cs, todo...)
+	}
+	push(p)
+	cur := "/"
+	links := 0
+	for len(todo) > 0 {
+		c := todo[0]
+		todo = todo[1:]
+		if c == ".." {
+			cur = filepath.Dir(cur)
+			continue
+		}
+		cand := filepath.Join(cur, c)
+		info, err := os.Lstat(cand)
+		if err == nil && info.Mode()&os.ModeSymlink != 0 {
+			links++
+			if links > 40 {
+				return "", false
+			}
+			t, err := os.Readlink(cand)
+			if err != nil {
+				return "", false
+			}
+			if strings.HasPrefix(t, "/") {
+				cur = "/"
+			}
+			push(t)
+			continue
+		}
+		cur = cand
+	}
+	return cur, true
+}
+
+func under(dir, p string) bool {
+	return p == dir || strings.HasPrefix(p, dir+"/")
+}
+
+type histOut struct {
+	I       int        `json:"i"`
+	Res     []string   `json:"res"`   // per executed operation: ok | invalid | err
+	Links   [][]string `json:"links"` // [op index, hex(first argument), hex(stored link text, the base written as @BASE)]
+	Viol    []string   `json:"viol"`  // what left the base (after the first one only the reading operations are carried out)
+	Chain   int        `json:"chain"` // links whose creation or target path went through another link
+	Problem string     `json:"problem,omitempty"`
+}
+
+const outMark = "OUT-"
+
+func lfsHistories() int {
+	scratch, err := os.MkdirTemp("", "verif-c13h-")
+	if err != nil {
+		fmt.Println("ERROR mkdirtemp", err)
+		return 2
+	}
+	defer os.RemoveAll(scratch)
+	if real, e := filepath.EvalSymlinks(scratch); e == nil {
+		scratch = real
+	}
+	// the base lies several directories deep, so that a link that climbs a few levels is still inside the scratch tree
+	top := filepath.Join(scratch, outMark+"l1", outMark+"l2", outMark+"l3", outMark+"l4", "top")
+	base := filepath.Join(top, "base")
+	outsideFiles := map[string]string{}
+	for d := filepath.Dir(top); under(scratch, d); d = filepath.Dir(d) {
+		outsideFiles[filepath.Join(d, outMark+"secret.txt")] = "secret-up"
+	}
+	outsideFiles[filepath.Join(top, outMark+"secret.txt")] = "secret"
+	outsideFiles[filepath.Join(top, "secret.txt")] = "secret-plain"
+	outsideFiles[filepath.Join(top, "a")] = "sentinel-a"
+	outsideFiles[filepath.Join(top, "f")] = "sentinel-f"
+	outsideFiles[filepath.Join(top, outMark+"dir", "a", "f")] = "secret-a"
+	outsideFiles[filepath.Join(top, outMark+"dir", "f")] = "secret-f"
+	outsideFiles[filepath.Join(top, "basex", "f")] = "secret-sibling"
+	restoreOutside := func() {
+		for p, c := range outsideFiles {
+			os.MkdirAll(filepath.Dir(p), 0o755)
+			if fi, e := os.Lstat(p); e == nil && !fi.Mode().IsRegular() {
+				os.RemoveAll(p)
+			}
+			os.WriteFile(p, []byte(c), 0o644)
+		}
+	}
+	reset := func() {
+		os.RemoveAll(base)
+		os.MkdirAll(filepath.Join(base, "a", "b"), 0o755)
+		os.MkdirAll(filepath.Join(base, "d"), 0o755)
+		os.WriteFile(filepath.Join(base, "a", "f"), []byte("inside"), 0o644)
+		os.WriteFile(filepath.Join(base, "f"), []byte("inside-f"), 0o644)
+	}
+	restoreOutside()
+	cwd := filepath.Join(top, "cwd")
+	os.MkdirAll(cwd, 0o755)
+	os.Chdir(cwd)
+	lfs, err := localfs.New(context.Background(), localfs.WithBase(base))
+	if err != nil {
+		fmt.Println("ERROR localfs.New", err)
+		return 2
+	}
+	realBase, _ := physical(base)
+	unhex := func(h string) string { b, _ := hex.DecodeString(h); return string(b) }
+	w := bufio.NewWriterSize(os.Stdout, 1<<20)
+	defer w.Flush()
+	enc := json.NewEncoder(w)
+	sc := bufio.NewScanner(os.Stdin)
+	sc.Buffer(make([]byte, 1<<20), 1<<24)
+	idx := 0
+	for sc.Scan() {
+		line := strings.TrimSpace(sc.Text())
+		out := histOut{I: idx, Res: []string{}, Links: [][]string{}, Viol: []string{}}
+		idx++
+		if line == "" {
+			enc.Encode(&out)
+			continue
+		}
+		reset()
+		before := snapshot(scratch, base)
+		readOnly := false
+		for k, o := range strings.Split(line, ";") {
+			f := strings.Split(o, ":")
+			name := f[0]
+			a, b := "", ""
+			if len(f) > 1 {
+				a = unhex(f[1])
+			}
+			if len(f) > 2 {
+				b = unhex(f[2])
+			}
+			var err error
+			var leak string
+			// where do the host paths of the arguments lead, physically, before the operation (the first argument of
+			// Symlink is only stored, not accessed: it is judged by where the new link leads)
+			var reach []string
+			for ai, arg := range []string{a, b} {
+				if ai >= len(f)-1 || (name == "Symlink" && ai == 0) {
+					continue
+				}
+				if hp, e := ros.ResolvePath(base, arg, "op"); e == nil {
+					if leads, ok := physical(hp); ok && !under(realBase, leads) {
+						reach = append(reach, fmt.Sprintf("argument %q reaches %s", arg, strings.Replace(leads, scratch, "<scratch>", 1)))
+					}
+				}
+			}
+			if readOnly && name != "ReadFile" && name != "ReadDir" && name != "Stat" && name != "WalkDir" {
+				out.Res = append(out.Res, "skipped")
+				continue
+			}
+			switch name {
+			case "Mkdir":
+				err = lfs.Mkdir(a, 0o755)
+			case "MkdirAll":
+				err = lfs.MkdirAll(a, 0o755)
+			case "Symlink":
+				err = lfs.Symlink(a, b)
+			case "Rename":
+				err = lfs.Rename(a, b)
+			case "WriteFile":
+				err = lfs.WriteFile(a, []byte("written"), 0o644)
+			case "Create":
+				var fl ros.File
+				fl, err = lfs.Create(a)
+				if fl != nil {
+					fl.Close()
+				}
+			case "Remove":
+				err = lfs.Remove(a)
+			case "RemoveAll":
+				err = lfs.RemoveAll(a)
+			case "Stat":
+				_, err = lfs.Stat(a)
+			case "ReadFile":
+				var data []byte
+				data, err = lfs.ReadFile(a)
+				if err == nil && (strings.HasPrefix(string(data), "secret") || strings.HasPrefix(string(data), "sentinel")) {
+					leak = "ReadFile returned the content of a file outside the base: " + string(data)
+				}
+			case "ReadDir":
+				_, err = lfs.ReadDir(a)
+			case "WalkDir":
+				err = lfs.WalkDir(a, func(p string, d fs.DirEntry, e error) error {
+					if !under(base, p) {
+						leak = "WalkDir visited " + p
+					}
+					return nil
+				})
+			default:
+				fmt.Fprintln(os.Stderr, "unknown op", name)
+				return 2
+			}
+			r := "ok"
+			var pe *fs.PathError
+			if err != nil {
+				r = "err"
+				if errors.As(err, &pe) && errors.Is(pe.Err, fs.ErrInvalid) {
+					r = "invalid"
+				}
+			}
+			out.Res = append(out.Res, r)
+			if leak != "" {
+				out.Viol = append(out.Viol, fmt.Sprintf("op %d %s: %s", k, name, leak))
+			}
+			if err == nil && len(reach) > 0 {
+				out.Viol = append(out.Viol, fmt.Sprintf("op %d %s succeeded on a host path outside the base: %s", k, name, strings.Join(reach, "; ")))
+			}
+			// the link just made: what text was stored, and did making it involve another link
+			if name == "Symlink" && err == nil {
+				if np, e := ros.ResolvePath(base, b, "symlink"); e == nil {
+					if t, e := os.Readlink(np); e == nil {
+						st := t
+						if under(base, t) {
+							st = "@BASE" + strings.TrimPrefix(t, base)
+						}
+						out.Links = append(out.Links, []string{strconv.Itoa(k), hex.EncodeToString([]byte(a)), hex.EncodeToString([]byte(st))})
+					}
+				}
+			}
+			// (1) every symbolic link inside the base must physically lead into the base
+			through := 0
+			filepath.WalkDir(base, func(p string, d fs.DirEntry, e error) error {
+				if e != nil || d.Type()&os.ModeSymlink == 0 {
+					return nil
+				}
+				t, _ := os.Readlink(p)
+				leads, ok := physical(p)
+				// the resolver of this harness against the standard library's (which asks the kernel about every component)
+				if ev, e := filepath.EvalSymlinks(p); e == nil && ok && ev != leads {
+					out.Problem = fmt.Sprintf("op %d: resolver disagreement on %s: physical=%s EvalSymlinks=%s", k, p, leads, ev)
+				}
+				if ok && !under(realBase, leads) {
+					out.Viol = append(out.Viol, fmt.Sprintf("op %d %s: the link %s (stored text %q) leads to %s, outside the base",
+						k, name, strings.TrimPrefix(p, base+"/"), t, strings.Replace(leads, scratch, "<scratch>", 1)))
+				}
+				// a chain: the directory holding the link, or the stored target, passes through another link
+				tp := t
+				if !strings.HasPrefix(tp, "/") {
+					tp = filepath.Join(filepath.Dir(p), tp)
+				}
+				if dir, ok := physical(filepath.Dir(p)); ok && dir != filepath.Dir(p) {
+					through++
+				} else if lead2, ok := physical(tp); ok && lead2 != filepath.Clean(tp) {
+					through++
+				}
+				return nil
+			})
+			if through > out.Chain {
+				out.Chain = through
+			}
+			// (2) nothing outside the base may change
+			after := snapshot(scratch, base)
+			if d := diffSnap(before, after); len(d) > 0 {
+				for i := range d {
+					d[i] = strings.Replace(d[i], scratch, "<scratch>", 1)
+				}
+				out.Viol = append(out.Viol, fmt.Sprintf("op %d %s: effect outside the base: %s", k, name, strings.Join(d, "; ")))
+				for p := range after {
+					if _, ok := before[p]; !ok {
+						os.RemoveAll(p)
+					}
+				}
+				restoreOutside()
+				os.MkdirAll(cwd, 0o755)
+			}
+			if len(out.Viol) > 0 {
+				readOnly = true // nothing is changed THROUGH a link that leaves the base; reads go on (what do they reveal)
+			}
+		}
+		enc.Encode(&out)
+	}
 	return 0
 }
 
@@ -476,6 +795,9 @@ func main() {
 		w.Flush()
 		rc := localfsRun(n)
 		os.Exit(rc)
+	case "lfshist":
+		w.Flush()
+		os.Exit(lfsHistories())
 	default:
 		fmt.Fprintln(os.Stderr, "unknown mode")
 		os.Exit(2)
